@@ -2,6 +2,7 @@ from construct.core import ConstructError
 from construct.core import Subconstruct
 from construct.core import Switch
 from construct.expr import this
+import struct
 
 from smpl_extract.util.fat import RequestedInvalidSector
 
@@ -40,7 +41,9 @@ class FileAdapter(Subconstruct):
                 stream, 
                 **context
             )
-        except (RequestedInvalidSector, InvalidCharacter) as e:
+        except (RequestedInvalidSector, InvalidCharacter, struct.error) as e:
+            # struct.error: a compiled construct read fewer bytes than a 
+            # field needs (file shorter than its header)
             raise ConstructError from e
 
         return file
